@@ -6,26 +6,28 @@ from engine import canon, guarded, refuse
 
 ID = "C02"
 LEVEL = "proof"
-LEVEL_TEXT = ("Lean 4 theorems, for every row length, every start/stop/step (all integers, no bounds): the (start, length, step) "
-              "triple computed by the column-slice kernels -- which are re-generated from /repo's source on every run and bridged "
-              "to the reference kernels by re-proved lemmas -- addresses exactly CPython's slice of the row (length = "
-              "PySlice_AdjustIndices length, first index, stride), integer columns are refused exactly outside [-len, len), and "
-              "the cumsum gather-index builder yields the concatenated arithmetic progressions of the rows. The full index "
-              "dispatch (row selectors x column selectors) is modelled in Lean and tied to the code by a correspondence check "
-              "(implementation vs compiled model vs Lean list-of-rows spec vs CPython) on exhaustive small shapes x the index grammar.")
-LEVEL_NOTE = ("Trusted: Lean kernel (+ standard axioms), kernel translator with its row-projection convention, N layer, hand model of "
-              "the dispatch glue. Theorems cover the column-slice arithmetic and index builder; the end-to-end statement "
-              "getitem = Py.getitem for every index expression is carried by the correspondence (facets_correspondence_only).")
+LEVEL_TEXT = ("Machine-checked Lean 4 theorem C02_getitem: for EVERY list of rows (any lengths, empty rows anywhere), every element "
+              "type and every index expression of the grammar (row selector int / slice any step / integer list / bool mask / "
+              "Ellipsis, optional column selector int / slice with any start, stop, step), the model of RaggedArray(rows)[idx] "
+              "-- code geometry, row selection, column-slice kernels, cumsum gather-index builder, gather -- equals the same "
+              "selectors applied to the plain list of rows, and refuses exactly when they do. The column-slice kernels are "
+              "re-generated from /repo's source on every run and bridged to the reference kernels by re-proved lemmas (a changed "
+              "kernel breaks a proof obligation); the rest of the model is tied to the code by a correspondence check "
+              "(implementation vs compiled model vs Lean spec vs CPython) on exhaustive small shapes x the index grammar x dtypes.")
+LEVEL_NOTE = ("Trusted: Lean kernel (+ propext/Classical.choice/Quot.sound), kernel translator with its row-projection convention, "
+              "N layer (numpy gather/scatter/cumsum semantics), the hand-written model of the dispatch glue and of build_indices "
+              "(tied by differential correspondence only), CPython slice semantics as transcribed in Spec/Py.lean (validated against "
+              "CPython on every case). Ragged boolean-mask indexing and (int, list)/(list, list) element access are correspondence-only.")
 TECHNIQUE = "Lean 4 proof over kernels translated from source each run + model/implementation correspondence"
 DESIGN_REF = "6.2"
-LEAN_MODULES = ["NpsVerif.Props.C02"]
+LEAN_MODULES = ["NpsVerif.Props.C02Kernels", "NpsVerif.Props.C02Gather", "NpsVerif.Props.C02GetItem"]
 KERNELS = ("view2_ends", "calc_lengths", "pos_col_slice", "col_slice_slice", "col_slice_int")
 RULE = ("cases = ragged array (exhaustive row-length vectors <=3 rows x <=3 cells, plus random larger ones; cells are distinct) x "
         "index expression (row selector: int / slice any step / list with repeats+negatives / bool mask incl. wrong length / Ellipsis; "
         "optional column selector: int / slice with bounds in {None} U [-(m+2), m+2] and steps None,+-1,+-2,+-3) x dtype; "
         "distinct = distinct (lengths, index); non-trivial = result is not a refusal and the array has at least one cell")
 EXHAUSTIVE = {"quick": False, "thorough": False}
-CORRESPONDENCE_ONLY = ["end-to-end getitem = Py.getitem for the whole grammar (dispatch glue, row selection, gather)"]
+CORRESPONDENCE_ONLY = ["ra[ragged boolean mask] (covered under C08)", "dtype tags of results"]
 ASSUMPTIONS = ["any exception of the implementation counts as a refusal", "numpy fancy/basic indexing semantics as modelled in the N layer"]
 
 
